@@ -15,7 +15,7 @@ non-leaf child) or another kind (`TreeError` on an empty name or on two equal si
 -/
 
 namespace Rel
-open Tree
+open Paths
 
 structure Row where
   child : Str
@@ -95,6 +95,7 @@ inductive NDict where
   deriving Repr, Inhabited
 
 namespace NDict
+open Paths
 
 mutual
 /-- `nested_dict_to_tree`: `node_type(name, parent=parent, **attrs)` refuses an empty name and
@@ -129,6 +130,7 @@ end
 end NDict
 
 namespace Heap
+open Paths
 
 /-- a `BinaryNode` under construction: value and the two child slots (indices into `node_list`) -/
 structure Slot where
